@@ -53,11 +53,11 @@ func runC18(c *core.Ctx) core.Meta {
 	st3 := c.Rule("R18.3", "each of the four data-path Sends forwards the message peeked at its paired input port; requests are recorded in the table of their direction together with the forwarded copy; responses are matched by the forwarded request's ID in the table of the opposite direction, carry the original request's ID, go back to the original requester, and remove exactly the matched entry", 4)
 	st5 := c.Rule("R18.5", "requests from inside are addressed through RemoteRDMAAddressTable.Find(address), requests from outside through localModules.Find(address)", 2)
 	type row struct {
-		out, in   string
-		isReq     bool
-		table     string
-		from, to  string
-		mapper    string
+		out, in  string
+		isReq    bool
+		table    string
+		from, to string
+		mapper   string
 	}
 	rows := []row{
 		{out: "RDMARequestOutside", in: "RDMARequestInside", isReq: true, table: "transactionsFromInside", from: "fromInside", to: "toOutside", mapper: "RemoteRDMAAddressTable"},
